@@ -16,6 +16,10 @@ func dispatch(cmd string, args []string) int {
 		return cmdImport(args)
 	case "C11":
 		return cmdExport(args)
+	case "C07":
+		return cmdPerms(args)
+	case "C18":
+		return cmdList(args)
 	default:
 		fmt.Println("unknown command", cmd)
 		return 2
